@@ -180,6 +180,13 @@ class Replay:
         self.calls += 1
         self.p.stdin.write(" ".join(str(f) for f in fields) + "\n")
         self.p.stdin.flush()
+        import select
+        ready, _, _ = select.select([self.p.stdout], [], [], float(os.environ.get("VERIF_REPLAY_TIMEOUT", "120")))
+        if not ready:
+            # no answer: the real code does not terminate (or is far beyond any sensible time bound) on this input
+            self.p.kill()
+            self.p = None
+            return "HANG", ""
         line = self.p.stdout.readline()
         if not line:
             # hard crash (stack overflow / abort)
